@@ -12,7 +12,7 @@ for d in seeded/*/; do
   W=$(mktemp -d /tmp/seedrun.XXXXXX)
   git -C /repo archive HEAD | tar -x -C "$W"
   if ! (cd "$W" && git init -q . >/dev/null 2>&1 && git apply --whitespace=nowarn "$ROOT/$d/patch.diff"); then echo "$id $prop PATCH-DOES-NOT-APPLY"; rm -rf "$W"; fail=1; continue; fi
-  out=$(VERIF_REPO_ROOT="$W" VERIF_EVIDENCE_DIR="$W/evidence" python3 tools/check.py "$prop" --tier quick 2>&1); rc=$?
+  out=$(VERIF_REPO_ROOT="$W" VERIF_BUILD_DIR="$W/vbuild" VERIF_EVIDENCE_DIR="$W/evidence" python3 tools/check.py "$prop" --tier quick 2>&1); rc=$?
   sig=$(echo "$out" | grep -m1 "signature:" | sed 's/ *signature: //')
   if [ $rc -eq 1 ]; then echo "$id $prop caught ($sig)"; else echo "$id $prop MISSED (exit $rc)"; fail=1; fi
   rm -rf "$W"
